@@ -48,7 +48,9 @@ META = {
                     "upload_revid_location has its default value; 2a branch; symlink targets are plain names different from the path names"],
     "rule": ("exhaustive id->name re-assignments of 3 entries over 4 root names (files, and a dir with a child) + structured "
              "scenario corpus + random op sequences (add/delete/rename/swap/cycle/modify/chmod/kind change/ignore) x upload "
-             "schedules (incremental, full at random positions, out-of-order = overwrite); non-trivial = some upload is incremental"),
+             "schedules (incremental, full at random positions, out-of-order = overwrite) + directed ignore-boundary renames + "
+             "kind 'cmd': the real cmd_upload().run on commit/uncommit/recommit scripts with --full/--overwrite/-r "
+             "(refusal of a diverged marker, incremental delta from the marker's revision); non-trivial = some upload is incremental"),
 }
 SHARD = 100
 
@@ -316,7 +318,16 @@ def _commit_state(wt, cur, st):
 
 
 def _scratch():
-    base, own = _scratch()
+    _state["n"] = _state.get("n", 0) + 1
+    root = _state.get("dir")
+    own = None
+    if not root or not os.path.isdir(root):
+        # called outside setup()/teardown() (shrinking, replay): use and remove a scratch directory of our own
+        import tempfile
+        own = root = tempfile.mkdtemp(prefix="verif-C43-own-")
+    os.environ.setdefault("BRZ_EMAIL", "verif <verif@example.com>")
+    base = os.path.join(root, "s%d" % _state["n"])
+    os.makedirs(base)
     return base, own
 
 
